@@ -2,7 +2,7 @@
    extracted inductive types).  Depends on model files only, never on proof files. *)
 Require Extraction.
 Require ExtrOcamlBasic.
-Require Import Params StateW ModularW DisposeW TaggedW EpochW.
+Require Import Params StateW ModularW DisposeW TaggedW EpochW Ebr.
 Extraction Language OCaml.
 Extraction "model.ml"
   Params.wrap Params.bnot Params.sext
@@ -17,4 +17,5 @@ Extraction "model.ml"
   TaggedW.f_low_bits TaggedW.t_tag TaggedW.t_high_tag TaggedW.t_as_raw TaggedW.t_is_null TaggedW.t_with_tag
   TaggedW.t_with_high_tag TaggedW.t_ptr_eq
   EpochW.e_starting EpochW.e_wrapping_sub EpochW.e_is_pinned EpochW.e_pinned EpochW.e_unpinned EpochW.e_successor
-  EpochW.e_value EpochW.is_expired.
+  EpochW.e_value EpochW.is_expired
+  Ebr.ebr_replay.
